@@ -45,6 +45,65 @@ def feats(tree):
     return sorted(out)
 
 
+# plumbing for known-finding attribution only (mirrors Rel!ToOne / Rel!ToMany): does one query level of the filter
+# reach the same table through two different to-one relationship paths?
+TOONE = {"Author": {"org": "Org", "info": "AuthorInfo", "home": "Org"}, "Post": {"author": "Author", "info": "PostInfo"},
+         "Comment": {"post": "Post"}}
+TOMANY = {"Org": {"authors": "Author"}, "Author": {"posts": "Post", "edited": "Post"}, "Post": {"comments": "Comment", "authors": "Author"}}
+
+
+def same_table_twice(tree, root):
+    found = []
+
+    def segs(p):
+        out = []
+        while p[0] == "Attr":
+            out.append(p[2]); p = p[1]
+        out.append(p[2])
+        return out[::-1]
+
+    def level(t, env, reached):
+        k = t[0]
+        if k in ("Id", "Attr"):
+            ss = segs(t)
+            model, start = (env[ss[0]], 1) if ss[0] in env else (env[""], 0)
+            base = (ss[0],) if start else ()
+            for i in range(start, len(ss)):
+                if ss[i] in TOONE.get(model, {}):
+                    model = TOONE[model][ss[i]]
+                    reached.setdefault(model, set()).add(base + tuple(ss[start:i + 1]))
+                else:
+                    return model, ss[i]
+            return model, None
+        if k == "Coll":
+            model, name = level(t[1], env, reached)
+            if t[3] != ["None"] and name in TOMANY.get(model, {}):
+                sub = {}
+                level(t[3][2], dict(env, **{t[3][1][2]: TOMANY[model][name]}), sub)
+                note(sub)
+            return None, None
+        if k in ("Bin", "Cmp", "Bool"):
+            level(t[2], env, reached); level(t[3], env, reached)
+        elif k == "Un":
+            level(t[2], env, reached)
+        elif k == "List":
+            for x in t[1]:
+                level(x, env, reached)
+        elif k == "Call":
+            for x in t[2]:
+                level(x, env, reached)
+        return None, None
+
+    def note(reached):
+        for m, paths in reached.items():
+            if len(paths) >= 2:
+                found.append(m)
+    top = {}
+    level(tree, {"": root}, top)
+    note(top)
+    return sorted(set(found))
+
+
 def run(ctx):
     ctx.rule = ("relational filters from derivation machine MC_C04 (roots Post and Author) with <= MaxOps connectives/"
                 "lambda brackets plus TLC-simulated deeper ones, on 2 database instances (20 posts owning every multiset "
@@ -95,6 +154,7 @@ def check_case(ctx, r, inst, dj, sa, total):
     text = U(r["text"])
     want = sorted(r["expected"])
     f = feats(r["tree"])
+    twice = same_table_twice(r["tree"], r["root"])
     for name, fn in (("django", lambda: dj.select(r["root"], text)), ("sqlalchemy", lambda: sa.select(r["root"], text, "orm")),
                      ("sqlalchemy-legacy", lambda: sa.select(r["root"], text, "legacy"))):
         if name == "sqlalchemy-legacy" and r["nops"] < 2:
@@ -103,7 +163,7 @@ def check_case(ctx, r, inst, dj, sa, total):
         try:
             got, sql = fn()
         except Exception as e:  # noqa
-            ctx.violation({"what": "raised", "backend": name, "exc": type(e).__name__, "features": f},
+            ctx.violation({"what": "raised", "backend": name, "exc": type(e).__name__, "features": f, "same_table_twice": bool(twice)},
                           {"text": text, "root": r["root"], "inst": inst, "exc": str(e)[:300], "case": r})
             continue
         if got != want:
